@@ -252,6 +252,13 @@ func checkC17(c C17Case, r *Rec) *Violation {
 	f, _ := m.Builtin(c.Op)
 	want, werr := f([]interface{}{c.A.X, c.B.X})
 	src, vars := c17Expr(c, false)
+	if !c.Infix && hash64(src)%3 == 0 {
+		// integer literals (list elements included) in other spellings of the same numbers
+		if alt := respellInts(src); alt != src {
+			src = alt
+			r.Class("integer-literals-respelled")
+		}
+	}
 	for _, mask := range []int{0, MaskFold, MaskFast, 15} {
 		co, o := c17Eval(src, vars, mask, c.Infix)
 		if co.Panic != nil || co.Err != nil {
